@@ -61,11 +61,19 @@ func modes() []mode {
 		ms = append(ms, mode{name: fmt.Sprintf("backend-503-text-%dKiB", pad>>10), backend: true, status: 503, json: false, pad: pad})
 	}
 	ms = append(ms, mode{name: "malformed-json-200"})
+	// a 200 whose body is JSON but not a completion (model still loading, empty choices, ...): on the translated route
+	// there is nothing to translate, which is a failure the client must be told about
+	for i := range untransformable {
+		ms = append(ms, mode{name: fmt.Sprintf("untransformable-json-200-%d", i)})
+	}
 	return ms
 }
 
 const backendErrJSON = `{"error":{"message":"backend says no","type":"invalid_request_error","code":"nope"}}`
 const backendErrText = "upstream exploded: <html>bad gateway</html>"
+
+var untransformable = []string{`{"error":{"message":"model is loading","type":"server_error"}}`, `{"id":"x","object":"chat.completion","choices":[]}`, `{}`,
+	`{"id":"x","object":"chat.completion","choices":[{"index":0,"finish_reason":"stop"}]}`, `[]`, `null`}
 
 func errBody(m mode) string {
 	if m.json {
@@ -199,7 +207,7 @@ func runConfig(engine string, rt route, k int, rg routing) {
 		ms = []mode{{name: "all-unhealthy"}, {name: "unknown-model"}, {name: "refuse"}, {name: "refuse-again"}}
 	}
 	for _, m := range ms {
-		if m.name == "malformed-json-200" && !rt.translated {
+		if (m.name == "malformed-json-200" || strings.HasPrefix(m.name, "untransformable-json-200")) && !rt.translated {
 			continue
 		}
 		if m.name == "no-endpoints" {
@@ -253,6 +261,12 @@ func runConfig(engine string, rt route, k int, rg routing) {
 					b.SetFixed(stack.Behaviour{Kind: "read-close"})
 				}
 				failures++
+			case "untransformable-json-200-0", "untransformable-json-200-1", "untransformable-json-200-2", "untransformable-json-200-3", "untransformable-json-200-4", "untransformable-json-200-5":
+				var ui int
+				fmt.Sscanf(m.name, "untransformable-json-200-%d", &ui)
+				for _, b := range bes {
+					b.SetFixed(stack.Behaviour{Kind: "respond", Status: 200, Framing: "cl", Body: []byte(untransformable[ui]), Cut: -1, After: "complete", Headers: [][2]string{{"Content-Type", "application/json"}}})
+				}
 			case "malformed-json-200":
 				for _, b := range bes {
 					body := `{"id":"x","object":"chat.completion","choices":[{"index":0,"message":{"role":"assistant","content":"trunc`
@@ -318,7 +332,7 @@ func judge(engine string, rt route, k int, m mode, stream bool, r *stack.Resp, d
 		if strings.Contains(r.Header.Get("Content-Type"), "event-stream") {
 			cl = "fabricated-empty-stream"
 		}
-		if m.name == "malformed-json-200" && stream {
+		if (m.name == "malformed-json-200" || strings.HasPrefix(m.name, "untransformable-json-200")) && stream {
 			// a 200 stream whose lines are all malformed: C13 requires such lines to be skipped, so an
 			// empty message is the tolerated outcome; explored (no hang, no crash), not asserted
 			res.Add("explored_not_asserted", 1)
